@@ -472,24 +472,25 @@ impl Duration {
     /// Decomposes a Duration in its sign, days, hours, minutes, seconds, ms, us, ns
     #[must_use]
     pub fn decompose(&self) -> (i8, u64, u64, u64, u64, u64, u64, u64) {
-        let mut me = *self;
-        let sign = me.signum();
-        me = me.abs();
-        let days = me.to_unit(Unit::Day).floor();
-        me -= days.days();
-        let hours = me.to_unit(Unit::Hour).floor();
-        me -= hours.hours();
-        let minutes = me.to_unit(Unit::Minute).floor();
-        me -= minutes.minutes();
-        let seconds = me.to_unit(Unit::Second).floor();
-        me -= seconds.seconds();
-        let milliseconds = me.to_unit(Unit::Millisecond).floor();
-        me -= milliseconds.milliseconds();
-        let microseconds = me.to_unit(Unit::Microsecond).floor();
-        me -= microseconds.microseconds();
-        let nanoseconds = me.to_unit(Unit::Nanosecond).round();
+        let sign = self.signum();
+        // Split the magnitude with integer arithmetic: floating point seconds lose the nanoseconds past ~104 days.
+        let me = self.abs();
+        let mut ns_left = u128::from(me.centuries.unsigned_abs()) * u128::from(NANOSECONDS_PER_CENTURY)
+            + u128::from(me.nanoseconds);
+        let days = ns_left / u128::from(NANOSECONDS_PER_DAY);
+        ns_left %= u128::from(NANOSECONDS_PER_DAY);
+        let hours = ns_left / u128::from(NANOSECONDS_PER_HOUR);
+        ns_left %= u128::from(NANOSECONDS_PER_HOUR);
+        let minutes = ns_left / u128::from(NANOSECONDS_PER_MINUTE);
+        ns_left %= u128::from(NANOSECONDS_PER_MINUTE);
+        let seconds = ns_left / u128::from(NANOSECONDS_PER_SECOND);
+        ns_left %= u128::from(NANOSECONDS_PER_SECOND);
+        let milliseconds = ns_left / u128::from(NANOSECONDS_PER_MILLISECOND);
+        ns_left %= u128::from(NANOSECONDS_PER_MILLISECOND);
+        let microseconds = ns_left / u128::from(NANOSECONDS_PER_MICROSECOND);
+        let nanoseconds = ns_left % u128::from(NANOSECONDS_PER_MICROSECOND);
 
-        // Everything should fit in the expected types now
+        // Everything fits in the expected types: the largest duration has fewer than 2^31 days.
         (
             sign,
             days as u64,
